@@ -676,7 +676,7 @@ class Gen:
         mods = ["m1", "m2"] if self.two else ["m1"]
         for i in range(self.nfun):
             m = "m1" if i < self.nfun // 2 or not self.two else "m2"
-            nparams = r.randrange(0, 4)
+            nparams = r.choice([0, 1, 2, 3, 3, 4, 5])
             params = [(f"p{i}_{j}", self.rand_type(1)) for j in range(nparams)]
             nlab = r.choice([0, 0, 1, 2, 3])         # Gleam: unlabelled parameters come first
             labels = [(f"lab{j}" if j >= nparams - nlab else None) for j in range(nparams)]
@@ -707,6 +707,36 @@ class Gen:
                       f" {{\n case {pn} {{\n  0 -> {base[0]}\n  _ -> {g.name}({pn} - 1)\n }}\n}}")
             f.sexp = f"(case ((v {pid})) ((pi) {base[1]}) ((pd) (call (fr {g.name}) (_ (op ia (v {pid}) i)))))"
         self.feat("recursion-group")
+        # wrappers: unannotated parameters passed on to a generated function with the leading arguments by
+        # position and the remaining (labelled) ones by label in any order - their types come from the callee alone
+        for f in list(sigs):
+            n = len(f.params)
+            if n == 0 or r.random() < 0.4:
+                continue
+            nun = sum(1 for l in f.labels if l is None)
+            m = r.randrange(nun, n + 1)                # arguments given by position
+            w = Fn("w_" + f.name, f.module, [(f"q{f.name}_{j}", f.params[j][1]) for j in range(n)], f.ret, [None] * n)
+            w.ret_ann = False
+            self.cur_module = f.module
+            self.cur_fn = w.name
+            ids = []
+            for (pn, pt) in w.params:
+                self.nid += 1
+                self.binders.append((self.nid, pn, f.module, pt, True))
+                ids.append(self.nid)
+            w.param_ids = ids
+            w.ann = [False] * n
+            w.ret_src = False
+            pos = [(None, w.params[j][0], ids[j]) for j in range(m)]
+            lab = [(f.labels[j], w.params[j][0], ids[j]) for j in range(m, n)]
+            r.shuffle(lab)
+            items = pos + lab
+            if lab: self.feat("mixed-positional-labelled-call")
+            rt, rs = self.ref(f)
+            w.text = (f"pub fn {w.name}(" + ", ".join(p[0] for p in w.params) + ") {\n " + f"{rt}(" +
+                      ", ".join((f"{l}: {nm}" if l else nm) for (l, nm, _) in items) + ")\n}")
+            w.sexp = f"(call {rs}" + "".join(f" ({l if l else '_'} (v {i}))" for (l, _, i) in items) + ")"
+            self.fns.append(w)
         texts = {}
         for m in mods:
             items = [f.text for f in self.fns if f.module == m]
